@@ -34,6 +34,13 @@ var c13Texts = map[string]string{
 }
 
 var c13Corpus = []string{
+	"IF a { b := 1 } ELIF c { d := 2 } ELSE { e := 3 }",
+	"For a > 0 { Break }\nfOR [k, v] IN m { Continue }",
+	"Try { raise(\"E\") } Except \"E\" As e { x := 1 } Otherwise { y := 2 } Finally { z := 3 }",
+	"FUNC f(a) { RETURN a }\nLet q := f(1)",
+	"SINK s1 KindMatch [\"a.b\"], StateMatch {\"k\" : 1}, Priority 1, Suppresses [\"s2\"] { Mutex m { a := 1 } }",
+	"Import \"x\" AS y\na := True AND False OR NULL\nb := a NotIn [1] Like \"x\" HasPrefix \"y\" HasSuffix \"z\"",
+	"iF a { b := 1 } eLSE { c := 2 }\ntRY { } fINALLY { }\nfUNC g() { rETURN }",
 	"if a { b := 1 }",
 	"a := {1:2}",
 	"for a > 0 { b := {\"x\" : [1,2,3]} }",
@@ -85,12 +92,6 @@ func c13FreeChild(args []string) {
 	fmt.Sscan(os.Getenv("VERIF_C13_ROUNDS"), &rounds)
 	erp := interpreter.NewECALRuntimeProvider("c13", nil, util.NewMemoryLogger(10))
 	erp.Cron.Stop()
-	seq := map[string]string{}
-	seqRT := map[string]string{}
-	for _, t := range c13Corpus {
-		seq[t] = parseResult(t, nil)
-		seqRT[t] = parseResult(t, erp)
-	}
 	evalSrc := "a := 1\nb := \"v{{a + 1}}w{{ {1:2}[1] }}\"\nif a == 1 { c := {1:b} }\nc"
 	evalOnce := func() string {
 		ast, err := parser.ParseWithRuntime("c13e", evalSrc, erp)
@@ -103,7 +104,6 @@ func c13FreeChild(args []string) {
 		res, err := ast.Runtime.Eval(scope.NewScope(scope.GlobalScope), make(map[string]interface{}), erp.NewThreadID())
 		return fmt.Sprint(res, err)
 	}
-	seqEval := evalOnce()
 	type rec struct {
 		Ev       string `json:"ev"`
 		Text     string `json:"text"`
@@ -113,46 +113,68 @@ func c13FreeChild(args []string) {
 		Example  string `json:"example"`
 		Seq      string `json:"seq"`
 	}
+	// The concurrent phase comes FIRST: the very first parses of the process overlap (whatever the parser sets up lazily
+	// on first use is set up by several goroutines at once); what one parse on its own gives is computed afterwards.
 	var mu sync.Mutex
-	recs := map[string]*rec{}
-	note := func(text, mode, got, want string) {
+	got := map[string]map[string]int{} // mode|text -> result -> count
+	note := func(text, mode, res string) {
 		mu.Lock()
 		k := mode + "|" + text
-		r := recs[k]
-		if r == nil {
-			r = &rec{Ev: "parse", Text: text, Mode: mode, Seq: want}
-			recs[k] = r
+		if got[k] == nil {
+			got[k] = map[string]int{}
 		}
-		r.Runs++
-		if got != want {
-			r.Mismatch++
-			if r.Example == "" {
-				r.Example = got
-			}
-		}
+		got[k][res]++
 		mu.Unlock()
 	}
 	var wg sync.WaitGroup
+	start := make(chan struct{})
 	for w := 0; w < workers; w++ {
 		w := w
 		wg.Add(1)
 		go func() {
 			defer wg.Done()
 			rng := rand.New(rand.NewSource(int64(w) + 1))
+			<-start
 			for k := 0; k < rounds; k++ {
 				t := c13Corpus[rng.Intn(len(c13Corpus))]
 				switch (w + k) % 3 {
 				case 0:
-					note(t, "parse", parseResult(t, nil), seq[t])
+					note(t, "parse", parseResult(t, nil))
 				case 1:
-					note(t, "parse+runtime", parseResult(t, erp), seqRT[t])
+					note(t, "parse+runtime", parseResult(t, erp))
 				default:
-					note(evalSrc, "eval", evalOnce(), seqEval)
+					note(evalSrc, "eval", evalOnce())
 				}
 			}
 		}()
 	}
+	close(start)
 	wg.Wait()
+	recs := map[string]*rec{}
+	for k, results := range got {
+		parts := strings.SplitN(k, "|", 2)
+		mode, text := parts[0], parts[1]
+		var want string
+		switch mode {
+		case "parse":
+			want = parseResult(text, nil)
+		case "parse+runtime":
+			want = parseResult(text, erp)
+		default:
+			want = evalOnce()
+		}
+		r := &rec{Ev: "parse", Text: text, Mode: mode, Seq: want}
+		for res, n := range results {
+			r.Runs += n
+			if res != want {
+				r.Mismatch += n
+				if r.Example == "" {
+					r.Example = res
+				}
+			}
+		}
+		recs[k] = r
+	}
 	out := bufio.NewWriter(os.Stdout)
 	for _, r := range recs {
 		b, _ := json.Marshal(r)
